@@ -1,6 +1,7 @@
 package sack
 
 import (
+	"errors"
 	"net/netip"
 	"time"
 
@@ -29,5 +30,33 @@ func Verif_C12_nohide_sack() {
 	V.Reach("accepted")
 	spec := packets.PacketFilterSpec{FilterType: packets.FilterTypeTCP, FilterConfig: packets.FilterConfig{
 		Src: target, Dst: netip.AddrPortFrom(local, d.localPort)}}
+	V.Assert(packets.VerifFilterAccepts(spec, frame), "C12/filter-passes-every-matchable-frame")
+}
+
+// Verif_C12_nohide_handshake: during the handshake the SACK entry point installs FilterTypeSYNACK{Src: target}; every
+// frame whose payload the real ReadHandshake turns into an established connection (or into "SACK not supported",
+// which decides the fallback) passes that filter.
+func Verif_C12_nohide_handshake() {
+	L := V.ParamInt("L", 48)
+	d, _, src, _, target := vFreshDriver()
+	lport := V.U16("lport")
+	eth := V.Bytes("eth", 14)
+	P := V.Bytes("P", L)
+	N.BoundArb4(P)
+	V.Assume(V.All(eth[12] == 0x08, eth[13] == 0x00))
+	frame := append(append([]byte(nil), eth...), P...)
+	src.Queue = [][]byte{append([]byte(nil), P...)}
+	err := d.ReadHandshake(lport)
+	var ns *NotSupportedError
+	if err != nil && !errors.As(err, &ns) {
+		V.Reach("rejected")
+		return
+	}
+	if err == nil {
+		V.Reach("established")
+	} else {
+		V.Reach("unsupported")
+	}
+	spec := packets.PacketFilterSpec{FilterType: packets.FilterTypeSYNACK, FilterConfig: packets.FilterConfig{Src: target}}
 	V.Assert(packets.VerifFilterAccepts(spec, frame), "C12/filter-passes-every-matchable-frame")
 }
